@@ -580,6 +580,9 @@ func (d *Decoder) LoadParityData() error {
 	var parityShards [][]byte
 	for _, file := range parityFiles {
 		for exponent, packet := range file.recoveryPackets {
+			if len(packet.data) != d.sliceByteCount {
+				return errors.New("recovery packet byte count mismatch")
+			}
 			if int(exponent) >= len(parityShards) {
 				parityShards = append(parityShards, make([][]byte, int(exponent+1)-len(parityShards))...)
 			}
